@@ -30,7 +30,7 @@ ASSUMPTIONS = ['island rows are compared with an independent 8-connected flood f
                'C04/C16/C17 contracts stay armed inside the fits']
 MIN_REACH = {'source_finder:SourceFinder.find_sources_in_image': 1, 'source_finder:SourceFinder.priorized_fit_islands': 1,
              'source_finder:SourceFinder._refit_islands': 1, 'source_finder:SourceFinder.result_to_components': 1}
-MIN_COUNTERS = {'rows_checked': 200, 'island_rows_checked': 10, 'reruns_compared': 10, 'priorized_runs': 3,
+MIN_COUNTERS = {'priorized_inputs_off_image_or_on_blank': 3, 'rows_checked': 200, 'island_rows_checked': 10, 'reruns_compared': 10, 'priorized_runs': 3,
                 'fresh_process_reruns': 1, 'table_rows_checked': 20}
 BATCHES_PER_JOB = 4
 
@@ -207,9 +207,23 @@ def fresh_entry(case, fn):
 
 def _input_catalogue(case, fn, rms, truth, z):
     if case['input'] == 'truth':
+        # every injected source, including those centred off the image, plus one entry on each blank block and a few
+        # far off the image: inputs the finder has to skip (anywhere in the list, i.e. in any batch of 20 groups)
         rows, cols = case['field']['shape']
-        onimg = [t for t in truth if -0.5 < t['index'][0] < rows - 0.5 and -0.5 < t['index'][1] < cols - 0.5]
-        return truth_catalogue(onimg, case['field']['beam'], case['field']['shape'], z)
+        extra = []
+        for r0, r1, c0, c1 in case['field'].get('nan_blocks', []):
+            ra, dec = z.index2sky((r0 + r1 - 1) / 2.0, (c0 + c1 - 1) / 2.0)
+            extra.append(dict(truth[0], ra=float(ra), dec=float(dec), index=[(r0 + r1 - 1) / 2.0, (c0 + c1 - 1) / 2.0]))
+        rng = np.random.default_rng(case['field']['noise_seed'])
+        for _ in range(int(rng.integers(1, 4))):
+            i, j = float(rng.uniform(-60, -5)), float(rng.uniform(0, cols))
+            if rng.random() < 0.5:
+                i, j = float(rng.uniform(0, rows)), cols + float(rng.uniform(5, 60))
+            ra, dec = z.index2sky(i, j)
+            extra.append(dict(truth[0], ra=float(ra), dec=float(dec), index=[i, j]))
+        allsrc = list(truth) + extra
+        allsrc = [allsrc[k] for k in rng.permutation(len(allsrc))]
+        return truth_catalogue(allsrc, case['field']['beam'], case['field']['shape'], z)
     from AegeanTools.models import ComponentSource
     blind = _blind(fn, dict(case, docov=False, max_summits=None, island=False), rms)
     return [s for s in blind if isinstance(s, ComponentSource)]
@@ -261,6 +275,12 @@ def run(case):
                     o.count('priorized_runs_over_20_inputs')
                 srcs2 = _guard(o, ctx, lambda: _prior(fn, case, rms, copy.deepcopy(cat)))
                 o.n_eval += 1
+                skipped = 0
+                for s_ in cat:
+                    i_, j_ = [int(round(float(v))) for v in z.sky2index(s_.ra, s_.dec)]
+                    if not (0 <= i_ < img.shape[0] and 0 <= j_ < img.shape[1]) or not np.isfinite(img[i_, j_]):
+                        skipped += 1
+                o.count('priorized_inputs_off_image_or_on_blank', skipped)
                 # every output carries an input uuid (C05 judges the rest)
                 inu = set(s.uuid for s in cat)
                 for r in comps:
